@@ -43,7 +43,9 @@ def fingerprint_hostname(hostname, strip_suffix=False):
         # TODO: this is not performant because the code path reparses again
         r = split_suffix(hostname)
 
-        if r is not None:
+        # NOTE: a hostname that is only a suffix (e.g. "co.uk", "github.io")
+        # is kept as is, there would be nothing left of it
+        if r is not None and r[0]:
             hostname, _ = r
 
     return hostname
@@ -98,7 +100,9 @@ def fingerprint_url(url, unsplit=True, strip_suffix=False, platform_aware=False)
             # TODO: this is not performant because the code path reparses again
             r = split_suffix(hostname)
 
-            if r is not None:
+            # NOTE: a hostname that is only a suffix (e.g. "co.uk", "github.io")
+            # is kept as is, lest the result has no host at all
+            if r is not None and r[0]:
                 hostname, _ = r
 
     # Dropping port
